@@ -31,13 +31,13 @@ type cdOp struct {
 }
 
 type cdCase struct {
-	Dim    int     `json:"dim"`
-	M      int     `json:"m"`
-	Ops    []cdOp  `json:"ops"`
-	Chunks []int   `json:"chunks"`
-	Bytes  []byte  `json:"bytes"`
-	Len    int     `json:"len"`
-	Note   string  `json:"note,omitempty"`
+	Dim    int    `json:"dim"`
+	M      int    `json:"m"`
+	Ops    []cdOp `json:"ops"`
+	Chunks []int  `json:"chunks"`
+	Bytes  []byte `json:"bytes"`
+	Len    int    `json:"len"`
+	Note   string `json:"note,omitempty"`
 }
 
 type randChunkReader struct {
